@@ -17,6 +17,7 @@ import (
 type Record struct {
 	ID       string
 	Name     string
+	Type     string // "" = HTTPS
 	Priority int
 	Target   string
 	Value    string
@@ -134,12 +135,16 @@ func (a *API) RoundTrip(req *http.Request) (*http.Response, error) {
 				continue
 			}
 			for _, r := range zz.Records {
-				if q.Get("type") == "" || q.Get("type") == "HTTPS" {
+				rt := r.Type
+				if rt == "" {
+					rt = "HTTPS"
+				}
+				if q.Get("type") == "" || q.Get("type") == rt {
 					data := map[string]any{"priority": r.Priority, "target": r.Target, "value": r.Value}
 					if a.OmitEmptyValue && r.Value == "" {
 						delete(data, "value")
 					}
-					all = append(all, rec{r.ID, r.Name, "HTTPS", 1, data})
+					all = append(all, rec{r.ID, r.Name, rt, 1, data})
 				}
 			}
 		}
@@ -189,7 +194,11 @@ func (a *API) Snapshot() map[string]string {
 	m := map[string]string{}
 	for _, z := range a.Zones {
 		for _, r := range z.Records {
-			m[z.Name+"|"+r.Name] = fmt.Sprintf("%d|%s|%s", r.Priority, r.Target, r.Value)
+			key := z.Name + "|" + r.Name
+			if r.Type != "" && r.Type != "HTTPS" {
+				key += "#" + r.Type + "#" + r.ID
+			}
+			m[key] = fmt.Sprintf("%d|%s|%s", r.Priority, r.Target, r.Value)
 		}
 	}
 	return m
